@@ -46,13 +46,13 @@ theorem same_storage_as_enclosing_user (p k : Scope) (rest : List Scope) (v : Na
 -- non-vacuity: function(){ x = 1; b = {|| x } } — the block's x is the function's x
 example :
     let k := Scope.mk 2 [] [] (.var 0)
-    let p := Scope.mk 1 [] [(0, .num 1), (3, .block k)] (.num 0)
+    let p := Scope.mk 1 [] [.assign 0 (.num 1), .assign 3 (.block k)] (.num 0)
     isParam k 0 = false ∧ usesD k 0 = true ∧ usesD p 0 = true ∧
       cellOf k [p] 0 = .shared 1 0 ∧ cellOf p [] 0 = .shared 1 0 := by decide
 example :
     Scope.mk 2 [] [] (.var 0) ∈
-      kids (Scope.mk 1 [] [(0, .num 1), (3, .block (Scope.mk 2 [] [] (.var 0)))] (.num 0)) := by
-  simp [kids, Scope.body, Scope.result, exprKids]
+      kids (Scope.mk 1 [] [.assign 0 (.num 1), .assign 3 (.block (Scope.mk 2 [] [] (.var 0)))] (.num 0)) := by
+  simp [kids, Scope.body, Scope.result, exprKids, stmtKids]
 
 /-- Block parameters hide outer variables: a parameter is bound by its own block whatever the
 enclosing scopes use. -/
@@ -62,35 +62,50 @@ theorem params_hide (chain : List Scope) (s : Scope) (v : Nat) (h : isParam s v 
 
 /-- A private name is private to each call: a new invocation (fresh frame) finds it
 uninitialized whatever the store contains, and writing it never touches the shared store. -/
-theorem private_per_call (s : Scope) (chain : List Scope) (v n : Nat) (st : Store) (l : Locals)
+theorem private_per_call (s : Scope) (chain : List Scope) (act v n : Nat) (st : State) (l : Locals)
     (x : Val) (h : cellOf s chain v = .priv n) :
-    readVar ⟨s, chain, []⟩ st v = none ∧ (writeVar ⟨s, chain, l⟩ st v x).2 = st :=
-  ⟨private_fresh s chain v st n h, private_write_keeps_store s chain l st v x n h⟩
+    readVar ⟨s, chain, act, []⟩ st v = none ∧ (writeVar ⟨s, chain, act, l⟩ st v x).2 = st :=
+  ⟨private_fresh s chain act v st n h, private_write_keeps_store s chain act l st v x n h⟩
 
-/-- Shared storage exists once per call of the outermost function: the cell is named by
-(binding scope, name) only, so a write through any frame of any scope (any call of any closure,
-whatever its private locals) is read back through every other one that denotes the same cell. -/
-theorem shared_once_per_outer_call (s1 s2 : Scope) (c1 c2 : List Scope) (l1 l2 : Locals)
-    (st : Store) (v w : Nat) (x : Val) (p n : Nat)
+/-- Shared storage exists once per call of the outermost function: within one call (activation
+`act`) the cell is named by (binding scope, name) only, so a write through any frame of any scope
+(any call of any closure created by that call, whatever its private locals) is read back through
+every other one that denotes the same cell … -/
+theorem shared_once_per_outer_call (s1 s2 : Scope) (c1 c2 : List Scope) (act : Nat)
+    (l1 l2 : Locals) (st : State) (v w : Nat) (x : Val) (p n : Nat)
     (h1 : cellOf s1 c1 v = .shared p n) (h2 : cellOf s2 c2 w = .shared p n) :
-    readVar ⟨s2, c2, l2⟩ (writeVar ⟨s1, c1, l1⟩ st v x).2 w = some x :=
-  shared_write_read s1 s2 c1 c2 l1 l2 st v w x p n h1 h2
+    readVar ⟨s2, c2, act, l2⟩ (writeVar ⟨s1, c1, act, l1⟩ st v x).2 w = some x :=
+  shared_write_read s1 s2 c1 c2 act l1 l2 st v w x p n h1 h2
+
+/-- … and a different call of the function (another activation, e.g. a recursive or later call of
+a nested function) has storage of its own: nothing written in one call is visible in another. -/
+theorem distinct_calls_distinct_storage (s1 s2 : Scope) (c1 c2 : List Scope) (a1 a2 : Nat)
+    (l1 l2 : Locals) (st : State) (v w : Nat) (x : Val) (hne : a1 ≠ a2) :
+    readVar ⟨s2, c2, a2, l2⟩ (writeVar ⟨s1, c1, a1, l1⟩ st v x).2 w =
+      readVar ⟨s2, c2, a2, l2⟩ st w :=
+  other_call_unaffected s1 s2 c1 c2 a1 a2 l1 l2 st v w x hne
+
+/-- The catch variable of `try … catch (v)` is a use of `v` in the scope that contains the try —
+so it denotes the enclosing scope's `v` like any other mention (`scoping_nearest_user`). -/
+theorem catch_variable_is_a_use (s : Scope) (x w : Nat) (e : Expr)
+    (h : Stmt.tryc x e w ∈ s.body) : usesD s w = true :=
+  catch_var_is_use s x w e h
 
 /-- Closure vs plain function, static part: a block that the sharing analysis compiles as a
 plain function (`isClosure = false`, the mirror of `Block.CompileAsFunction`) binds every name it
-mentions itself, and so do all blocks nested in it.
+mentions itself, contains no `return`, and so do all blocks nested in it.
 PARTIAL: the full statement — running such a block with a fresh store (as a plain function does)
 gives the same result and leaves the caller's store unchanged, for every program — needs an
 induction over `evalE` that is not done; the suite checks it by re-running every such program
 with all blocks forced to be closures. -/
 theorem closure_vs_function_partial (n : Nat) (chain : List Scope) (k : Scope)
     (h : isClosure (n + 1) chain k = false) :
-    (∀ v ∈ namesD k, (bindingGo chain k v).id = k.id) ∧
+    (∀ v ∈ namesD k, (bindingGo chain k v).id = k.id) ∧ hasRet k = false ∧
     (∀ c ∈ kids k, isClosure n (k :: chain) c = false) :=
   ⟨function_block_binds_itself n chain k h, function_block_kids n chain k h⟩
 
 -- non-vacuity: function(){ b = {|y| z = y; z } } — the block shares nothing
-example : isClosure 3 [Scope.mk 1 [] [] (.num 0)] (Scope.mk 2 [1] [(2, .var 1)] (.var 2)) = false := by
+example : isClosure 3 [Scope.mk 1 [] [] (.num 0)] (Scope.mk 2 [1] [.assign 2 (.var 1)] (.var 2)) = false := by
   decide
 
 end Gsu.Props.C29
